@@ -520,17 +520,14 @@ class Forcing(BaseForce):
             # Read other forcing variables with no time interpolation
             for name in self.extra_forcing:
                 self.fields[name] = self._read_field(name, step)
-            # self.force_particles(X, Y)
-        else:
-            if step - 1 in self.steps:  # Need new fields
-                i = self.steps.index(step - 1)
+            # Look ahead: next frame and the increment towards it
+            i = self.steps.index(step)
+            if i + 1 < len(self.steps):
                 nextstep = self.steps[i + 1]
                 stepdiff = self.stepdiff[i]
                 self.fields["u_new"], self.fields["v_new"] = self._read_velocity(
                     nextstep
                 )
-                # for name in self.extra_forcing:
-                #    self[name + "new"] = self._read_field(name, nextstep)
                 if interpolate_velocity_in_time:
                     self.fields["dU"] = (
                         self.fields["u_new"] - self.fields["u"]
@@ -538,17 +535,11 @@ class Forcing(BaseForce):
                     self.fields["dV"] = (
                         self.fields["v_new"] - self.fields["v"]
                     ) / stepdiff
-                # if interpolate_extra_forcing_in_time:
-                #    for name in self.extra_forcing:
-                #        self["d" + name] = (self[name + "new"] - self[name]) / stepdiff
-
-            # "Ordinary" time step (including self.steps+1)
+        else:
+            # "Ordinary" time step between two frames
             if interpolate_velocity_in_time:
                 self.fields["u"] += self.fields["dU"]
                 self.fields["v"] += self.fields["dV"]
-            # if interpolate_extra_forcing_in_time:
-            #    for name in self.extra_forcing:
-            #        self[name] += self["d" + name]
 
         # Update forcing values at particles
         # print("force_particles")
@@ -566,6 +557,7 @@ class Forcing(BaseForce):
         nc = Dataset(self.file_idx[time_step])
         nc.set_auto_maskandscale(False)
         self._nc = nc
+        self._open_file = self.file_idx[time_step]
 
         # Get scaling info per variable
         self.scaled = dict()
@@ -580,6 +572,15 @@ class Forcing(BaseForce):
             else:
                 self.scaled[key] = False
 
+    def _select_file(self, time_step: int) -> None:
+        """Make sure the file holding the frame of time_step is the open one"""
+        if self._first_read:
+            self.open_forcing_file(time_step)  # Open first file
+            self._first_read = False
+        elif self.file_idx[time_step] != self._open_file:  # Switch file
+            self._nc.close()
+            self.open_forcing_file(time_step)
+
     def _read_velocity(self, time_step: int) -> tuple[Field, Field]:
         """Read velocity fields at given time step"""
         # Need a switch for reading W
@@ -589,13 +590,7 @@ class Forcing(BaseForce):
         # Always read velocity before other fields
         logger.info("Reading velocity for time step = %s", time_step)
 
-        if self._first_read:
-            self.open_forcing_file(time_step)  # Open first file
-            self._first_read = False
-        elif self.frame_idx[time_step] == 0:  # Open next file
-            self._nc.close()
-            self.open_forcing_file(time_step)
-
+        self._select_file(time_step)
         frame = self.frame_idx[time_step]
 
         # Read the velocity
@@ -618,6 +613,7 @@ class Forcing(BaseForce):
 
     def _read_field(self, name: str, n: int) -> Field:
         """Read a 3D field"""
+        self._select_file(n)
         frame = self.frame_idx[n]
         F0: Field = self._nc.variables[name][frame, :, self.grid.J, self.grid.I]
         if self.scaled[name]:
